@@ -42,7 +42,43 @@ impl ListenerScn {
     }
 }
 
+/// A crowd: about a thousand keys connect (the key map grows), most of them leave (it becomes
+/// sparse), and the few that stayed are then tried again, together with some that left.
+fn gen_crowd(rng: &mut Rng) -> ListenerScn {
+    let n = *rng.pick(&[1u32, 1, 2]);
+    let crowd = rng.range(950, 1200) as u32;
+    let stay = rng.range(3, 12) as u32;
+    let mut batches = Vec::new();
+    batches.push((0..crowd).map(LOp::Arrive).collect());
+    if n == 2 && rng.chance(500) {
+        // the stayers take both of their slots
+        batches.push((0..stay).map(LOp::Arrive).collect());
+    }
+    // leave in one go or in a few waves
+    let waves = rng.range(1, 4) as u32;
+    let leavers: Vec<u32> = (stay..crowd).collect();
+    for w in leavers.chunks(leavers.len() / waves as usize + 1) {
+        batches.push(w.iter().map(|k| LOp::CloseKey(*k)).collect());
+    }
+    batches.push(vec![]);
+    let mut again: Vec<LOp> = Vec::new();
+    for k in 0..stay {
+        again.push(LOp::Arrive(k));
+        if n == 2 {
+            again.push(LOp::Arrive(k));
+        }
+    }
+    for _ in 0..rng.range(1, 4) {
+        again.push(LOp::Arrive(rng.range(stay as u64, crowd as u64 - 1) as u32));
+    }
+    batches.push(again);
+    ListenerScn { n, batches }
+}
+
 pub fn gen(rng: &mut Rng) -> ListenerScn {
+    if rng.chance(4) {
+        return gen_crowd(rng);
+    }
     let keys = rng.range(1, 4) as u32;
     // mostly small limits (where shedding happens), sometimes the largest ones ("no limit")
     let n = *rng.pick(&[1u32, 1, 1, 2, 2, 2, 3, 3, u32::MAX, u32::MAX - 1]);
